@@ -18,7 +18,7 @@ sed -i "s#=> /repo#=> $S/xrepo#" "$S/xengine/go.mod"
 F="$S/xrepo/converters/bash/converter.go"; cp "$F" "$S/converter.orig.go"
 run() { d="$S/run-$1"; mkdir -p "$d/bin/std"; cp "$S/xrepo/std/"*.tsh "$d/bin/std/"; grep -h '^known:' "$here/KNOWN_PROPOSED.txt" > "$d/KNOWN_FINDINGS.txt"
   (cd "$S/xengine" && go build -o "$d/bin/c18-dev" ./c18/cmd)
-  ( cd "$d" && ./bin/c18-dev > out.txt 2> err.txt; echo "[$1] exit=$? violations=$(grep -c '^VIOLATION' out.txt) $(tail -1 out.txt)"; grep '^VIOLATION' out.txt | head -2 | cut -c1-260 ); cp "$S/converter.orig.go" "$F"; }
+  ( cd "$d" && st=0; ./bin/c18-dev > out.txt 2> err.txt || st=$?; echo "[$1] exit=$st violations=$(grep -c '^VIOLATION' out.txt) $(tail -1 out.txt)"; grep '^VIOLATION' out.txt | head -2 | cut -c1-260 ); cp "$S/converter.orig.go" "$F"; }
 sed -i 's/if strings.HasPrefix(arg, "\$") || len(strings.Split(arg, " ")) > 1 {/if len(strings.Split(arg, " ")) > 1 {/' "$F"; run m1
 sed -i 's/callString := strings.Join(callStrings, " | ")/callString := strings.Join(callStrings, " ; ")/' "$F"; run m2
 sed -i 's/\t\tc.VarDefinition(helper2, "\$?", false)/\t\tc.VarAssignment("_stderr", "", true)\n\t\tc.VarDefinition(helper2, "$?", false)/' "$F"; run m3
